@@ -90,6 +90,29 @@ def em_pointwise(kind, sig, ybar, y):
     return np.array(out)
 
 
+def em_pointwise_vec(kind, sig, ybar, y):
+    """Vectorised form of em_pointwise (same docstring formulas) for long observation vectors;
+    complex-safe. The terms are separable in ybar, so a simultaneous complex step on every
+    ybar_j gives d/d ybar_j of the sum in one evaluation."""
+    ybar = np.asarray(ybar)
+    y = np.asarray(y)
+    if not em_in_support(kind, sig, ybar):
+        return np.full(len(y), -np.inf)
+    if kind == 'gauss':
+        s = sig[0] + 0 * ybar
+    elif kind == 'mult':
+        s = sig[0] * ybar
+    elif kind == 'cm':
+        s = sig[0] + sig[1] * ybar
+    elif kind == 'lognorm':
+        s = sig[0]
+        mu = np.log(ybar) - s ** 2 / 2
+        return -0.5 * LOG2PI - np.log(s) - np.log(y) - (np.log(y) - mu) ** 2 / (2 * s ** 2)
+    else:
+        raise ValueError(kind)
+    return -0.5 * LOG2PI - np.log(s) - (y - ybar) ** 2 / (2 * s ** 2)
+
+
 def em_loglik(kind, sig, ybar, y):
     pw = em_pointwise(kind, sig, ybar, y)
     tot = 0.0
